@@ -68,9 +68,13 @@ def probe(ctx, text, steps=None):
         for op in ("escaped", "unescaped", "str"):
             ctx.evaluations += 1
             try:
-                p = YAMLPath(text, sep)
                 if steps is not None:
                     steps.begin()
+                # the constructor's pathsep argument is overwritten when the text is stored (the separator is then
+                # inferred); a separator is *forced* through the property setter, as Processor and DiffEntry do
+                p = YAMLPath(text, sep)
+                if sep is not PathSeparators.AUTO:
+                    p.separator = sep
                 if op == "escaped":
                     r = p.escaped
                 elif op == "unescaped":
@@ -239,6 +243,8 @@ def replay(w):
     sep = PathSeparators[c["sep"]]
     try:
         p = YAMLPath(c["text"], sep)
+        if sep is not PathSeparators.AUTO:
+            p.separator = sep
         r = {"escaped": lambda: list(p.escaped), "unescaped": lambda: list(p.unescaped), "str": lambda: str(p)}[c["op"]]()
         return {"violated": False, "result": repr(r)}
     except YAMLPathException as e:
